@@ -448,6 +448,16 @@ def _ctor_lsp(ctx) -> None:
         ok = len(r) == 1 and nun(r[0].value) == f"self.as_duration().{op}({other})"
         ctx.ob("INTERVAL.delegate", f"Interval.{op}", ok, f"returns {[nun(x.value) for x in r]}; must delegate to as_duration()", im.loc(fn))
     ctx.step(_as_duration_tabulate, ctx)
+    # reflected operators written as aliases: `__rX__ = __X__` computes b op a as a op b - right only for a commutative operator
+    commutative = {"__add__", "__mul__", "__and__", "__or__", "__xor__"}
+    for mod_, cls in ((dm, "Duration"), (dm, "AbsoluteDuration"), (im, "Interval")):
+        if not mod_.has_cls(cls):
+            continue
+        for alias, target in mod_.class_aliases(cls).items():
+            if alias.startswith("__r") and alias.endswith("__") and target == "__" + alias[3:]:
+                ctx.ob("ALIAS.reflected", f"{cls}.{alias}", target in commutative,
+                       f"`{alias} = {target}` in class {cls}: " + ("the operator is commutative" if target in commutative else
+                       f"other {target[2:-2]} self would be computed as self {target[2:-2]} other (wrong sign / inverse) - and a subclass's reflected method is tried before the left operand's own"), mod_.rel)
 
 
 def _as_duration_tabulate(ctx) -> None:
